@@ -11,7 +11,7 @@ from .. import core, refcodec as rc
 from ..core import Outcome, Partial, violation
 
 ID = "C08"
-RULE = ("Histories of 1..80 events on one station with a virtual clock placed (drawn) around the 2^32 ms timestamp wrap: receptions of "
+RULE = ("Histories of 1..80 events (receptions, clock advances, the station's own location-service lookups for the sources) on one station with a virtual clock placed (drawn) around the 2^32 ms timestamp wrap: receptions of "
         "beacon/SHB/TSB/GBC/GAC/GUC/LS-request/LS-reply built by the reference codec from 4 sources and the station's own address, "
         "position timestamps drawn relative to the receiver clock (-25 s..+3 s, exact equality and +-1 ms included), clock advances of "
         "0..3 lifetimes (itsGnLifetimeLocTE in {1,5,20} s). Oracle = reference model (newest PV by serial arithmetic, neighbour flag, "
@@ -39,7 +39,9 @@ def event_s():
         "lat": st.integers(-900000000, 900000000), "lon": st.integers(-1800000000, 1800000000),
     })
     adv = st.fixed_dictionaries({"op": st.just("adv"), "ms": st.one_of(st.sampled_from([0, 1, 999, 1000, 1001, 4999, 5000, 5001, 19999, 20000, 20001]), st.integers(0, 60000))})
-    return st.one_of(rx, rx, rx, adv)
+    # the station's own location-service lookup for one of the sources (leaves a pending placeholder entry until the reply arrives)
+    lookup = st.fixed_dictionaries({"op": st.just("lookup"), "src": st.integers(0, 3)})
+    return st.one_of(rx, rx, rx, rx, rx, rx, adv, adv, lookup)
 
 
 def case_s():
@@ -83,10 +85,19 @@ def run_case(case):
                 now_ms = its_ms(clock.now)
                 for s_, m in model.items():
                     age_now = sdiff(now_ms, m["pv"][0])
-                    if age_now > life_ms + 2 and table.get_entry(addrs[s_]) is not None:
+                    e_ = table.get_entry(addrs[s_])
+                    if age_now > life_ms + 2 and e_ is not None and getattr(e_, "position_vector_received", True) is not False:
                         vs.append(violation(ID, "C08/entry-visible-after-expiry-until-next-reception",
                                             "step %d: after a clock advance source %d is still returned by get_entry %d ms after its PV timestamp (lifetime %d ms)" % (step, s_, age_now, life_ms)))
                         break
+                continue
+            if ev["op"] == "lookup":
+                try:
+                    station.call(station.gn.gn_ls_request, addrs[ev["src"]], None)
+                    labels.add("own-lookup")
+                except Exception as e_:
+                    vs.append(violation(ID, "C08/lookup-raises:%s" % type(e_).__name__, "step %d: gn_ls_request raised %r" % (step, e_)))
+                    break
                 continue
             now_ms = its_ms(clock.now)
             tst = (now_ms + ev["dt"]) % (1 << 32)
@@ -162,6 +173,8 @@ def run_case(case):
             nbs = {e.position_vector.gn_addr.mid.mid for e in table.get_neighbours()}
             for s_ in range(4):
                 e = table.get_entry(addrs[s_])
+                if e is not None and getattr(e, "position_vector_received", True) is False:
+                    e = None            # the empty placeholder of an own lookup: no position vector of that source was received
                 m = model.get(s_)
                 if m is None:
                     # absent in the model: either never seen, or expired (band cases were kept)
